@@ -442,8 +442,13 @@ class ThrRunner:
                         cell["orig_tags"].add("t9")
                     if what in ("returned_tags", "all"):
                         t = cell["job"].tags
-                        t.clear()
-                        t.add("t8")
+                        if o.get("how") == "swap" and t:
+                            # size-preserving change of the handed-out set
+                            t.discard(sorted(t)[0])
+                            t.add("t8")
+                        else:
+                            t.clear()
+                            t.add("t8")
                 obs["res"] = ("u",)
             elif k == "jobs":
                 r = self.sched.jobs
